@@ -307,6 +307,22 @@ impl Prop for C11Prop {
         if a != b && normalize_gensyms(&a) == normalize_gensyms(&b) {
             return Some("evaluator-com-leaks-let-bound-names");
         }
+        // cl23+ CSE emits its bindings in an order that follows the fresh names (C05 finding): two
+        // entry points run one after the other compile at different counter values
+        {
+            let src0 = v.case.get("source").and_then(|s| s.as_str()).unwrap_or("");
+            let modern_cse = ["*standard-cl-23*", "*standard-cl-23.1*", "*standard-cl-24*"].iter().any(|g| src0.contains(g));
+            let mut xa = vec![];
+            let mut xb = vec![];
+            a.atoms(&mut xa);
+            b.atoms(&mut xb);
+            xa.sort();
+            xb.sort();
+            let _ = (&xa, &xb);
+            if modern_cse && crate::props::c01::source_repeats_a_call(src0) && crate::props::c05::same_behaviour_on_generic_arguments(&a, &b) {
+                return Some("cl23-cse-binding-order-follows-the-fresh-names");
+            }
+        }
         // the leaked name may have been computed with (its digits are then not visible): the code is
         // a function of the fresh-name counter and of nothing else, in a program where the
         // evaluator's com is in play (cl22 sigil or a defconst)
